@@ -76,6 +76,13 @@ import json
 import os
 
 HERE = os.path.dirname(os.path.abspath(__file__))
+
+# every source function whose control flow is regenerated on every run (tools/coverage_map.py reads this)
+TRANSLATED = ['pyramid/httpexceptions.py:HTTPException.__init__',
+              'pyramid/httpexceptions.py:_HTTPMove.__init__',
+              'pyramid/httpexceptions.py:HTTPException._json_formatter',
+              'pyramid/httpexceptions.py:HTTPException.prepare',
+              'pyramid/httpexceptions.py:HTTPException.__call__']
 FALLBACK = os.path.join(HERE, 'gen_fallback.json')
 
 FIELDS = ['ob_code', 'ob_title', 'ob_expl', 'ob_tmpl', 'ob_tmpl_custom', 'ob_empty', 'ob_status', 'ob_detail',
